@@ -144,7 +144,10 @@ Record ecase := {
   e_want : N;               (* number of exchanges the client wanted to perform on the connection *)
   e_exchs : list exch;      (* the exchanges whose response arrived completely *)
   e_stream : str;           (* every byte the client received on the connection *)
-  e_closed : bool }.        (* the proxy closed the connection *)
+  e_closed : bool;          (* the proxy closed the connection *)
+  e_broken : bool }.        (* the origin's reply to the next exchange (not in e_exchs) broke after its head had been
+                               sent (malformed chunk-size line, corrupt gzip the proxy had solicited): e_stream ends
+                               with what the proxy had relayed of it *)
 
 Definition exch_resp (e : exch) : resp := set_hdr (e_snap e) (remove_hop_by_hop (r_hdr (e_snap e))).
 Definition exch_wire (e : exch) : str := resp_wire (e_closing e) (e_req e) (exch_resp e) (e_order e).
@@ -170,8 +173,13 @@ Definition wf_snapshot (q : req) (r : resp) (order : list str) : bool :=
    ((negb (r_chunked r) || ((r_cl r =? -1)%Z && proto_at_least_11 (r_major r) (r_minor r))) &&
     (negb (r_cl r =? 0)%Z || negb (nonempty (concat (reads_of r)))))).
 Definition ecase_model_ok (c : ecase) : bool :=
-  str_eqb (concat (map exch_wire (e_exchs c))) (e_stream c) &&
-  survive_ok (e_closed c) (e_want c) 0 (e_exchs c) &&
+  (if e_broken c
+   then (* the complete responses, then the aborted one; the connection ends iff a failed write returns errClose *)
+        has_prefix (e_stream c) (concat (map exch_wire (e_exchs c))) &&
+        forallb (fun e => conn_survives (e_closing e) (e_req e) (exch_resp e)) (e_exchs c) &&
+        Bool.eqb (e_closed c) wr_write_error_closes
+   else str_eqb (concat (map exch_wire (e_exchs c))) (e_stream c) &&
+        survive_ok (e_closed c) (e_want c) 0 (e_exchs c)) &&
   forallb (fun e => wf_snapshot (e_req e) (exch_resp e) (e_order e)) (e_exchs c).
 
 Definition values_match (got : list (str * str)) (want : str * list str) : bool :=
@@ -195,8 +203,11 @@ Fixpoint all_match (os : list obs) (es : list exch) : bool :=
 Definition ecase_prop_ok (c : ecase) : bool :=
   match client_parse_seq (e_v11 c) (map (fun e => q_method (e_req e)) (e_exchs c)) (e_stream c) with
   | Some (os, rest) =>
-      negb (nonempty rest) && all_match os (e_exchs c) &&
-      ((N.of_nat (length (e_exchs c)) =? e_want c) || e_closed c)
+      all_match os (e_exchs c) &&
+      (if e_broken c
+       then (* a response that cannot be completed must be the last thing on the connection *)
+            e_closed c
+       else negb (nonempty rest) && ((N.of_nat (length (e_exchs c)) =? e_want c) || e_closed c))
   | None => false
   end.
 
@@ -224,7 +235,8 @@ Definition ecase_absent_ok (c : ecase) : bool :=
 (* which part of the oracle fails first (names the finding):
    0 none, 1 the stream is not a sequence of complete responses / bytes are left over / a wanted
    exchange was not answered although the connection stayed open, 2 status code or reason phrase,
-   3 an end-to-end field is missing or changed, 4 a hop-by-hop field reaches the client, 5 body, 6 trailers *)
+   3 an end-to-end field is missing or changed, 4 a hop-by-hop field reaches the client, 5 body, 6 trailers,
+   7 the connection was kept after a response that could not be completed *)
 Definition obs_why (o : obs) (x : xexp) : N :=
   if negb ((o_code o =? x_code x) && match x_reason x with Some t => str_eqb (o_reason o) t | None => true end) then 2
   else if negb (forallb (values_match (o_fields o)) (x_fields x)) then 3
@@ -241,7 +253,8 @@ Fixpoint all_why (os : list obs) (es : list exch) : N :=
 Definition ecase_why (c : ecase) : N :=
   match client_parse_seq (e_v11 c) (map (fun e => q_method (e_req e)) (e_exchs c)) (e_stream c) with
   | Some (os, rest) =>
-      if nonempty rest then 1
+      if e_broken c then (let w := all_why os (e_exchs c) in if negb (w =? 0) then w else if e_closed c then 0 else 7)
+      else if nonempty rest then 1
       else let w := all_why os (e_exchs c) in
            if negb (w =? 0) then w
            else if (N.of_nat (length (e_exchs c)) =? e_want c) || e_closed c then 0 else 1
